@@ -353,6 +353,7 @@ func (b *Broker) handleConn(conn net.Conn) {
 	b.Lock()
 	if oldClient, ok := b.clients[cid]; ok {
 		logger.SpanDebugf(nil, "client %v take over by new client with same name", oldClient.info.cid)
+		atomic.StoreInt32(&oldClient.superseded, 1)
 		go oldClient.close()
 
 	} else if b.spec.MaxAllowedConnection > 0 {
